@@ -107,7 +107,8 @@ def run(ctx):
                 "(incl. exactly 1 and exactly 3) x with / without space shifts) and checks CensoredOnlySurvival and Finite; each "
                 "case is instantiated with seeded numeric points, the real distribution families are evaluated (single entries, "
                 "per-feature scales, two competing events with opposite censoring flags; for the Gaussian families also the values handed "
-                "out together with their derivative; an exception raised inside the support is a mismatch) and compared with the term of the case "
+                "out together with their derivative, for the Weibull families also the hazard and log-survival they hand out after the reference time "
+                "against exp(LogHazard) / -Survival; an exception raised inside the support is a mismatch) and compared with the term of the case "
                 "evaluated by the generic term evaluator; TLC checks that every case conforms and that the records cover the case "
                 "space (LikelihoodTrace.tla). Model-level variables (individual priors, Gaussian attachment over observed entries, "
                 "event attachment of the joint model with one event moved before the reference time) are compared entry by entry "
@@ -147,7 +148,7 @@ def run(ctx):
     if not ok:
         for r in recs:
             if not (r["all_match"] and r["all_finite"] and r["layouts_match"] and r["routes_agree"]):
-                what = "value" if not r["all_match"] else ("finite" if not r["all_finite"] else ("layout" if not r["layouts_match"] else "value-and-derivative route"))
+                what = "value" if not r["all_match"] else ("finite" if not r["all_finite"] else ("layout" if not r["layouts_match"] else "other route of the family (value-and-derivative / hazard / log-survival)"))
                 ctx.violation({"check": "case", "fam": r["fam"], "kind": r["kind"], "what": what},
                               f"{r['fam']} negative log-density differs from Likelihood.tla in case {r['cens']}/{r['pos']}/{r['shp']}/src={r['src']}/"
                               f"{r['yb']}/{r['pb']}: {what}; {r['worst']}", replay=r)
